@@ -96,9 +96,10 @@ func TestVerif_C28_Processor(t *testing.T) {
 	rec := vstat.New(t, "C28", "processor",
 		"rapid: 1-3 load streams (SQLite files of 0-400 rows, or garbage) chunked with sizes 512..65536, each ending complete or aborted after k chunks, one command possibly delivered twice, commands of the streams interleaved in a generated order and applied by CommandProcessor.Process to a real SwappableDB; non-trivial = at least two streams or an abort after at least one chunk; distinct by stream parameters and interleaving")
 	rapid.Check(t, func(rt *rapid.T) {
+		defer c28pGuard(rec)
 		dir, err := os.MkdirTemp("", "c28proc")
 		if err != nil {
-			rt.Skipf("infrastructure: %v", err)
+			c28pBail("infrastructure: %v", err)
 		}
 		defer os.RemoveAll(dir)
 		dbDir, chunkDir, srcDir := filepath.Join(dir, "db"), filepath.Join(dir, "chunks"), filepath.Join(dir, "src")
@@ -123,17 +124,17 @@ func TestVerif_C28_Processor(t *testing.T) {
 			}
 			src, err := c28MakeSource(srcDir, s)
 			if err != nil {
-				rt.Skipf("infrastructure: source: %v", err)
+				c28pBail("infrastructure: source: %v", err)
 			}
 			ck := chunking.NewChunker(strings.NewReader(string(src)), s.Chunk)
 			mk := func(lcr *proto.LoadChunkRequest) []byte {
 				sub, err := command.MarshalLoadChunkRequest(lcr)
 				if err != nil {
-					rt.Skipf("infrastructure: %v", err)
+					c28pBail("infrastructure: %v", err)
 				}
 				b, err := command.Marshal(&proto.Command{Type: proto.Command_COMMAND_TYPE_LOAD_CHUNK, SubCommand: sub})
 				if err != nil {
-					rt.Skipf("infrastructure: %v", err)
+					c28pBail("infrastructure: %v", err)
 				}
 				return b
 			}
@@ -143,7 +144,7 @@ func TestVerif_C28_Processor(t *testing.T) {
 					break
 				}
 				if err != nil {
-					rt.Skipf("infrastructure: chunker: %v", err)
+					c28pBail("infrastructure: chunker: %v", err)
 				}
 				if s.Fate == "abort" && s.nChunks >= s.AbortAt {
 					break
@@ -164,7 +165,7 @@ func TestVerif_C28_Processor(t *testing.T) {
 		// live database with known content
 		sdb, err := sql.OpenSwappable(filepath.Join(dbDir, "db.sqlite"), nil, false, true, 4)
 		if err != nil {
-			rt.Skipf("infrastructure: %v", err)
+			c28pBail("infrastructure: %v", err)
 		}
 		defer func() { sdb.Close() }()
 		setup := &proto.Request{Statements: []*proto.Statement{
@@ -172,15 +173,15 @@ func TestVerif_C28_Processor(t *testing.T) {
 			{Sql: "INSERT INTO live(v) VALUES('before')"},
 		}}
 		if rs, err := sdb.Execute(setup, false); err != nil || len(rs) != 2 {
-			rt.Skipf("infrastructure: %v", err)
+			c28pBail("infrastructure: %v", err)
 		}
 		current, err := vsql.DumpFile(sdb.Path())
 		if err != nil {
-			rt.Skipf("infrastructure: %v", err)
+			c28pBail("infrastructure: %v", err)
 		}
 		dm, err := chunking.NewDechunkerManager(chunkDir)
 		if err != nil {
-			rt.Skipf("infrastructure: %v", err)
+			c28pBail("infrastructure: %v", err)
 		}
 		defer dm.Close()
 		cp := NewCommandProcessor(log.New(io.Discard, "", 0), dm)
@@ -225,7 +226,7 @@ func TestVerif_C28_Processor(t *testing.T) {
 				}
 				after, err := vsql.DumpFile(sdb.Path())
 				if err != nil {
-					rt.Skipf("infrastructure: dump: %v", err)
+					c28pBail("infrastructure: dump: %v", err)
 				}
 				switch {
 				case d == 1:
@@ -291,4 +292,24 @@ func TestVerif_C28_Processor(t *testing.T) {
 			}
 		}
 	})
+}
+
+// c28pInconclusive is raised for infrastructure trouble inside a case; the
+// case is then counted under the label "inconclusive:infrastructure" instead
+// of being skipped (rapid gives up when most cases are skipped).
+type c28pInconclusive struct{ msg string }
+
+func c28pBail(format string, args ...any) {
+	panic(c28pInconclusive{fmt.Sprintf(format, args...)})
+}
+
+// c28pGuard is deferred at the top of a case.
+func c28pGuard(rec *vstat.Rec) {
+	if r := recover(); r != nil {
+		if _, ok := r.(c28pInconclusive); ok {
+			rec.Label("inconclusive:infrastructure")
+			return
+		}
+		panic(r)
+	}
 }
